@@ -41,6 +41,10 @@ var seedDefs = []seedDef{
 	{Name: "noold", Old: wh.Build{}, New: wh.Build{wh.F("a", "=abc")}},
 	// optimized patch: one bsdiff series (header + controls) and an untouched file
 	{Name: "bsdiff", Old: wh.Build{wh.F("a", "r1/200.r2/200"), wh.F("k", "=keep")}, New: wh.Build{wh.F("a", "r1/200.=INS.r2/200"), wh.F("k", "=keep")}, Optimize: true},
+	// optimized patch against an old file of exactly two 32 KiB cache chunks: a control whose
+	// add is resized "past the old file" then reads up to and at the very end of the file
+	// through the chunked cache
+	{Name: "bsdiff64k", Old: wh.Build{wh.F("a", "r1/65536")}, New: wh.Build{wh.F("a", "r1/32768.=INSERTED.r5/32768")}, Optimize: true},
 	// signature only: a 5-block file, an empty file, a tiny file
 	{Name: "sig5", Old: wh.Build{}, New: wh.Build{wh.F("a", "A.B.C.D.E/100"), wh.F("e", ""), wh.F("s", "=x")}, SigOnly: true},
 }
